@@ -393,7 +393,7 @@ func (s *sdbSess) storageReorg(i int) {
 func storageSession(run *vh.Run) {
 	rng := run.Rng
 	// user keys; the trie keys are their hashes (no long common prefixes: this session is about the wiring)
-	nk := 2 + rng.Intn(14)
+	nk := 1 + rng.Intn(14)
 	var keys [][]byte
 	for i := 0; i < nk; i++ {
 		keys = append(keys, rng.Bytes(1+rng.Intn(12)))
@@ -421,6 +421,16 @@ func storageSession(run *vh.Run) {
 					puts = append(puts, sput{k, rng.Bytes(1 + rng.Intn(40))})
 				}
 			}
+		}
+		if len(s.data) > 0 && rng.Chance(1, 5) {
+			// the block empties the contract's storage: the storage root goes back to nil
+			puts = nil
+			for _, k := range keys {
+				if _, ok := s.data[string(k)]; ok {
+					puts = append(puts, sput{k, nil})
+				}
+			}
+			run.Count("sdb-storage-block-deletes-everything")
 		}
 		if len(puts) == 0 {
 			puts = append(puts, sput{keys[rng.Intn(len(keys))], rng.Bytes(8)})
